@@ -70,9 +70,40 @@ def _nfunc(mod: Module, qn: str) -> ast.AST:
     if len(_NF_CACHE) > 64:
         _NF_CACHE.clear()
     cls = qn.split('.')[0] if '.' in qn and mod.has_cls(qn.split('.')[0]) else None
-    f = unroll_const_loops(inline_helpers(mod, mod.func(qn), cls, NO_INLINE), True)      # inline_helpers works on a copy; the rest edits that copy
+    no_inline = set(NO_INLINE)
+    if mod.rel == NINJA:
+        try:
+            no_inline.add(_quoter_role(mod)[1])
+        except Undecided:
+            pass
+    f = unroll_const_loops(inline_helpers(mod, mod.func(qn), cls, no_inline), True)      # inline_helpers works on a copy; the rest edits that copy
     _NF_CACHE[key] = inline_test_locals(search_loop_to_any(index_loop_to_direct(ifexp_assign_to_if(f, True), True), True), True)
     return _NF_CACHE[key]
+
+
+def _quoter_role(mod: Module) -> T.Tuple[str, str]:
+    """(qualified name, call name) of the function that turns one classified rule argument into text: the callee applied to
+    module-level function or NinjaRule method that reads `.quoting` of its first parameter."""
+    cached = _QR_CACHE.get((mod.rel, mod.digest))
+    if cached:
+        return cached
+    found: T.Set[T.Tuple[str, str]] = set()
+    for q, f in mod.funcs().items():
+        if not ('.' not in q or (q.startswith('NinjaRule.') and q.count('.') == 1)):
+            continue
+        ps = [a.arg for a in f.args.posonlyargs + f.args.args if a.arg not in ('self', 'cls')]
+        if not ps:
+            continue
+        if any(isinstance(n, ast.Attribute) and n.attr == 'quoting' and isinstance(n.ctx, ast.Load) and isinstance(n.value, ast.Name) and n.value.id == ps[0]
+               for n in walk_no_nested(f)):
+            found.add((q, q.split('.')[-1]))
+    if len(found) != 1:
+        raise Undecided(f'cannot identify the one function that renders a classified command argument by reading <arg>.quoting ({sorted(found)})')
+    _QR_CACHE[(mod.rel, mod.digest)] = next(iter(found))
+    return _QR_CACHE[(mod.rel, mod.digest)]
+
+
+_QR_CACHE: T.Dict[T.Tuple[str, str], T.Tuple[str, str]] = {}
 
 
 class _Roles:
@@ -83,9 +114,10 @@ class _Roles:
     def __init__(self, ctx: RuleCtx, mod: Module):
         self.mod = mod
         # default shell quoter
-        qf = mod.func('NinjaRule._quoter')
+        self.quoter_q, self.quoter = _quoter_role(mod)
+        qf = mod.func(self.quoter_q)
         if len(qf.args.args) != 2 or len(qf.args.defaults) != 1 or not isinstance(qf.args.defaults[0], ast.Name):
-            raise Undecided('NinjaRule._quoter: expected (arg, quote function = <name>)')
+            raise Undecided(f'{self.quoter_q}: expected (arg, quote function = <name>)')
         self.shell = qf.args.defaults[0].id
         # platform switch binding it
         self.switch = [st for st in mod.tree.body if isinstance(st, ast.If) and
@@ -340,10 +372,24 @@ def _resolve_truth(atom: Atom, val: bool, fl: OFlow) -> T.Tuple[Atom, bool]:
     return atom, val
 
 
+def _elem_fn(mod: Module) -> ast.AST:
+    """NinjaBuildElement.write in normal form; when the value loop is a comprehension (possibly over a per-element helper) it is
+    read as the loop it abbreviates and the helper is expanded."""
+    qn = 'NinjaBuildElement.write'
+    fn = _nfunc(mod, qn)
+    fl = OFlow(fn, cut={'ninja_quote'})
+    if not any(isinstance(n, ast.For) and 'attr:self.elems[1]' in fl.origins(n.iter) for n in ast.walk(fn)):
+        key = (mod.rel, mod.digest, qn + '#loops')
+        if key not in _NF_CACHE:
+            _NF_CACHE[key] = inline_test_locals(inline_helpers(mod, desugar_list_comp_assigns(fn), 'NinjaBuildElement', NO_INLINE), True)
+        fn = _NF_CACHE[key]
+    return fn
+
+
 def r1a(ctx: RuleCtx) -> None:
     mod = ctx.repo.module(NINJA)
     qn = 'NinjaBuildElement.write'
-    fn = _nfunc(mod, qn)
+    fn = _elem_fn(mod)
     fl = OFlow(fn, cut={'ninja_quote'}, opaque=True)
     sinks = _sinks(fn, fl)
     ctx.floor(f'{qn}: outfile.write sinks', len(sinks), 1)
@@ -367,16 +413,11 @@ def r1a(ctx: RuleCtx) -> None:
     loops = [n for n in ast.walk(fn) if isinstance(n, ast.For)]
     outer = [l for l in loops if {strip_proj(o) for o in fl.origins(l.iter)} >= {'attr:self.elems'} and 'attr:self.elems[1]' not in fl.origins(l.iter)]
     inner = [l for l in loops if 'attr:self.elems[1]' in fl.origins(l.iter)]
-    if len(inner) == 0:
-        # the value loop may be spelled as a comprehension: read `xs = [ELT for v in it]` as the loop it abbreviates
-        fn = desugar_list_comp_assigns(fn)
-        fl = OFlow(fn, cut={'ninja_quote'}, opaque=True)
-        loops = [n for n in ast.walk(fn) if isinstance(n, ast.For)]
-        outer = [l for l in loops if {strip_proj(o) for o in fl.origins(l.iter)} >= {'attr:self.elems'} and 'attr:self.elems[1]' not in fl.origins(l.iter)]
-        inner = [l for l in loops if 'attr:self.elems[1]' in fl.origins(l.iter)]
     if len(outer) != 1 or len(inner) != 1 or not isinstance(inner[0].target, ast.Name):
         raise Undecided(f'{qn}: expected one loop over self.elems and one over the values of a variable (found {len(outer)}/{len(inner)})')
     iv = inner[0].target.id
+    # names that stand for the element: the loop variable and locals bound to it (a helper parameter after inlining)
+    alias = {iv} | {n for n, ds in fl.defs.items() if any(isinstance(d, ast.Name) and d.id == iv for d in ds)}
     tab = tables.extract(fn, body=inner[0].body, effects=_assign_eff, inline=False, name=qn + ':values')
     n_rows = 0
     qf_names: T.Set[str] = set()
@@ -387,9 +428,9 @@ def r1a(ctx: RuleCtx) -> None:
             a, v = _resolve_truth(a0, v0, fl)
             if a.kind == 'in' and 'attr:self.elems[0]' in fl.origins(_expr(a.args[0])):
                 raw_v = v         # membership of the variable name in a table (R3b: the table is raw_names)
-            elif a.kind == 'cmp' and a.args[0] == 'eq' and a.args[1] == iv and a.args[2] == repr('&&'):
+            elif a.kind == 'cmp' and a.args[0] == 'eq' and a.args[1] in alias and a.args[2] == repr('&&'):
                 amp = v
-            elif a.kind == 'truth' and (a.args[0].endswith('is_windows()') or a.args[0] == f"{iv}.startswith('//')"):
+            elif a.kind == 'truth' and (a.args[0].endswith('is_windows()') or a.args[0] in {f"{x}.startswith('//')" for x in alias}):
                 continue      # UNC rewrite, Windows hosts only: not part of the reference
             else:
                 raise Undecided(f'{qn}: condition {a!r} outside the reference vocabulary of the value loop')
@@ -398,14 +439,23 @@ def r1a(ctx: RuleCtx) -> None:
             raise Undecided(f'{qn}: a path of the value loop appends {len(apps)} items: {r!r}')
         call = _expr(apps[0][5:])
         arg = call.args[0] if isinstance(call, ast.Call) and len(call.args) == 1 else None
+        for _ in range(3):          # the appended local: its reaching definition on this path
+            if isinstance(arg, ast.Name) and arg.id not in alias:
+                ds = [e.split(':=', 1)[1].strip() for e in r.effects if e.startswith(arg.id + ' := ')]
+                if not ds:
+                    break
+                arg = _expr(ds[-1])
+        if arg is None or (isinstance(arg, ast.Call) and call_name(arg) not in ('ninja_quote',) and not (isinstance(arg.func, ast.Name) and arg.func.id in fl.defs or isinstance(arg.func, ast.Name) and arg.func.id in fl.params)) \
+                or not isinstance(arg, (ast.Call, ast.Name)):
+            raise Undecided(f'{qn}: the value loop appends `{short(apps[0][5:], 70)}`, a form the rule does not understand')
         if not (isinstance(arg, ast.Call) and call_name(arg) == 'ninja_quote' and arg.args):
             ctx.violation(mod, qn, apps[0], f'value loop appends {apps[0][5:]}: ninja_quote is not the outermost quoting of the element (ninja de-quotes first)', r.path.events[-1].node)
             continue
         inner_arg = arg.args[0]
-        if isinstance(inner_arg, ast.Name) and inner_arg.id == iv:
+        if isinstance(inner_arg, ast.Name) and inner_arg.id in alias:
             got = 'ninja-only'
         elif isinstance(inner_arg, ast.Call) and isinstance(inner_arg.func, ast.Name) and len(inner_arg.args) == 1 \
-                and isinstance(inner_arg.args[0], ast.Name) and inner_arg.args[0].id == iv and not inner_arg.keywords:
+                and isinstance(inner_arg.args[0], ast.Name) and inner_arg.args[0].id in alias and not inner_arg.keywords:
             got = 'shell+ninja'
             qf_names.add(inner_arg.func.id)
         else:
@@ -487,7 +537,7 @@ def r1b(ctx: RuleCtx) -> None:
     mod = ctx.repo.module(NINJA)
     members = _quoting_members(ctx, mod)
     # _quoter decision table
-    qn = 'NinjaRule._quoter'
+    qn, qshort = _quoter_role(mod)
     fn = _nfunc(mod, qn)
     ps = [a.arg for a in fn.args.args]
     if len(ps) != 2 or len(fn.args.defaults) != 1:
@@ -566,7 +616,7 @@ def r1b(ctx: RuleCtx) -> None:
         ctx.require(got == ref[m], f'{qn}: Quoting.{m} -> {got}', mod, qn, f'Quoting.{m} -> {got}',
                     f'an argument marked Quoting.{m} is emitted as {got}; the meaning of Quoting.{m} is {ref[m]} (ARG2 = shell/rsp quote function)', node)
     # flows
-    cut = {'ninja_quote', '_quoter'}
+    cut = {'ninja_quote', qshort}
     qn = 'NinjaRule.write'
     fn = _nfunc(mod, qn)
     fl = OFlow(fn, cut)
@@ -580,11 +630,11 @@ def r1b(ctx: RuleCtx) -> None:
         raise Undecided('NinjaRule.__init__: self.command_str is not assigned exactly once')
     cs_o = fi.origins(cs_defs[0])
     bad = sorted(o for o in cs_o if o.split(':')[0] in ('param', 'attr', 'name') and o not in ('param:self',))
-    if not bad and 'san:_quoter' not in cs_o:
+    if not bad and f'san:{qshort}' not in cs_o:
         raise Undecided(f'NinjaRule.__init__: cannot see how self.command_str is built ({sorted(cs_o)})')
     ctx.require(not bad, 'NinjaRule.__init__: command_str is built from _quoter results only', mod, 'NinjaRule.__init__',
                 f'self.command_str <- {bad}', f'self.command_str receives {bad} without passing _quoter', cs_defs[0])
-    default_qf = norm(mod.func('NinjaRule._quoter').args.defaults[0])
+    default_qf = norm(mod.func(_quoter_role(mod)[0]).args.defaults[0])
     seen_vars: T.Dict[str, int] = {}
     for c in sinks:
         f1 = OFlow(fn, cut)
@@ -596,9 +646,9 @@ def r1b(ctx: RuleCtx) -> None:
             if var not in ('command', 'rspfile_content'):
                 continue
             seen_vars[var] = seen_vars.get(var, 0) + 1
-            qs = [sc for sc in f1.san.values() if sc.name == '_quoter']
+            qs = [sc for sc in f1.san.values() if sc.name == qshort]
             if 'attr:self.command_str' in o:
-                qs += [sc for sc in fi.san.values() if sc.name == '_quoter']
+                qs += [sc for sc in fi.san.values() if sc.name == qshort]
             if not qs:
                 raise Undecided(f'{qn}: the `{var}` line is not built from _quoter calls')
             for sc in qs:
@@ -704,6 +754,8 @@ def r1c(ctx: RuleCtx) -> None:
 # R2  ninja escape set
 
 REF_SPECIAL = {True: {'$', ' ', ':'}, False: {'$', ' '}}
+# characters for which ninja has no escape in that position: refusing them (raise) is correct, never a wrong escape
+NO_ESCAPE = {True: {'\n', '|'}, False: {'\n'}}
 UNIVERSE = [chr(c) for c in range(32, 127)] + ['\n', '\t', '\r', '\x0b', '\x0c', '\x00', 'é', '\x85']
 
 
@@ -781,6 +833,9 @@ def r2(ctx: RuleCtx) -> None:
                                     f'{where}: ninja cannot represent a newline, the function must raise but does `{" ".join(map(str, r.outcome))}`', node)
                         continue
                     want = present & REF_SPECIAL[flag]
+                    if r.outcome[0] == 'raise' and present & NO_ESCAPE[flag]:
+                        ctx.ok(f'{qn}: {where}: refuses a character ninja cannot escape here')
+                        continue
                     if r.outcome[0] != 'return':
                         ctx.violation(mod, qn, f'{sorted(present)}, {pname}={flag}: {r.outcome}', f'{where}: does not return a value: {r.outcome}', node)
                         continue
@@ -852,7 +907,7 @@ def _style_atom(a: Atom, subjects: T.Set[str]) -> T.Optional[T.Callable[[str], b
 
 def _qf_map(ctx: RuleCtx, mod: Module, qn: str, var: str, subjects: T.Set[str], members: T.List[str],
             rsp_flag_ok: T.Callable[[Atom], bool]) -> T.Dict[T.Tuple[bool, str], str]:
-    fn = _nfunc(mod, qn)
+    fn = _elem_fn(mod) if qn == 'NinjaBuildElement.write' else _nfunc(mod, qn)
     body = [st for st in fn.body if any(isinstance(n, ast.Name) and n.id == var and isinstance(n.ctx, ast.Store) for n in ast.walk(st))
             and not (isinstance(st, ast.AnnAssign) and st.value is None)]       # a bare annotation binds nothing
     if not body:
@@ -918,16 +973,16 @@ def r3a(ctx: RuleCtx) -> None:
     members = _style_members(ctx, mod)
     # rule side: variable passed as quote function to _quoter for rspfile_content
     wfn = _nfunc(mod, 'NinjaRule.write')
-    fl = OFlow(wfn, {'ninja_quote', '_quoter'})
+    fl = OFlow(wfn, {'ninja_quote', roles.quoter})
     for c in _sinks(wfn, fl):
         fl.origins(c.args[0])
-    two = {norm(sc.call.args[1]) for sc in fl.san.values() if sc.name == '_quoter' and len(sc.call.args) > 1}
+    two = {norm(sc.call.args[1]) for sc in fl.san.values() if sc.name == roles.quoter and len(sc.call.args) > 1}
     if len(two) != 1 or not next(iter(two)).isidentifier():
         raise Undecided(f'NinjaRule.write: rsp quote function expression(s) {sorted(two)}')
     rvar = next(iter(two))
     rule_map = _qf_map(ctx, mod, 'NinjaRule.write', rvar, {'self.rspfile_quote_style'}, members, lambda a: False)
     # element side
-    efn = _nfunc(mod, 'NinjaBuildElement.write')
+    efn = _elem_fn(mod)
     efl = OFlow(efn, {'ninja_quote'})
     evars = set()
     for n in ast.walk(efn):
@@ -952,7 +1007,7 @@ def r3a(ctx: RuleCtx) -> None:
         ctx.require(r != roles.shell, f'rsp style {m}: {r} is not the shell quoter', mod, 'NinjaRule.write', f'RSPFileSyntax.{m}: {r}',
                     f'response files of style {m} are quoted with the shell quote function {r}: a response file is not read by the shell')
     plain = {elem_map.get((False, m)) for m in members}
-    default_qf = norm(mod.func('NinjaRule._quoter').args.defaults[0])
+    default_qf = roles.shell
     ctx.require(plain == {default_qf}, f'without response file the element quotes with {sorted(map(str, plain))} = _quoter default {default_qf}', mod,
                 'NinjaBuildElement.write', f'plain: {sorted(map(str, plain))} / {default_qf}',
                 f'without a response file values are quoted with {sorted(map(str, plain))} while the rule command line is quoted with {default_qf}')
@@ -972,7 +1027,7 @@ def r3b(ctx: RuleCtx) -> None:
     mod = ctx.repo.module(NINJA)
     roles = _roles(ctx, mod)
     # the table of raw variables, found by role: what NinjaBuildElement.write tests the variable name against
-    efn = _nfunc(mod, 'NinjaBuildElement.write')
+    efn = _elem_fn(mod)
     efl = OFlow(efn)
     etabs = set()
     for n in ast.walk(efn):
@@ -1104,10 +1159,10 @@ def r3c(ctx: RuleCtx) -> None:
     shell = roles.shell
     # the quote function used for GCC-style response files (role: assigned on the rule side for the non-MSVC styles)
     wfn = _nfunc(mod, 'NinjaRule.write')
-    fl = OFlow(wfn, {'ninja_quote', '_quoter'})
+    fl = OFlow(wfn, {'ninja_quote', roles.quoter})
     for c in _sinks(wfn, fl):
         fl.origins(c.args[0])
-    rvars = {norm(sc.call.args[1]) for sc in fl.san.values() if sc.name == '_quoter' and len(sc.call.args) > 1}
+    rvars = {norm(sc.call.args[1]) for sc in fl.san.values() if sc.name == roles.quoter and len(sc.call.args) > 1}
     if len(rvars) != 1:
         raise Undecided(f'NinjaRule.write: rsp quote function expression(s) {sorted(rvars)}')
     rmap = _qf_map(ctx, mod, 'NinjaRule.write', next(iter(rvars)), {'self.rspfile_quote_style'}, _style_members(ctx, mod), lambda a: False)
@@ -1301,7 +1356,8 @@ def _r4a_cmdline(ctx: RuleCtx, mod: Module, rfn: ast.AST, rfl: OFlow) -> None:
                     for cj in _conjuncts(t.expr()):
                         if isinstance(cj, ast.Compare) and len(cj.ops) == 1 and isinstance(cj.ops[0], ast.Eq):
                             sides = {norm(cj.left), norm(cj.comparators[0])}
-                            if sides == {f'{v}[0]', repr('--')} and nodes and all(_only_via_edge(cfg, n, t, True) for n in nodes):
+                            if sides in ({f'{v}[0]', repr('--')}, {f'{v}[:1]', "['--']"}, {f'{v}[:1]', "('--',)"}, {f'{v}[0:1]', "['--']"}) \
+                                    and nodes and all(_only_via_edge(cfg, n, t, True) for n in nodes):
                                 guarded = True
                 ctx.require(guarded, f"{qn}: {v} = {norm(d)} only when {v}[0] == '--'", mod, qn, f'{v} = {norm(d)}',
                             f"{v} = {norm(d)} is not guarded by a test {v}[0] == '--': the first word of the command would be dropped", d)
